@@ -49,4 +49,5 @@ def run(ctx, rep):
     rep.run(RID.rule_property_accessors_by_evaluation, ctx, rep, "M19", parts=("routines",))
     rep.run(RID.rule_returned_enum_by_evaluation, ctx, rep, "M20")
     rep.run(RID.rule_call_sites_by_evaluation, ctx, rep, "M21", returns=True)
+    rep.run(RID.rule_call_sites_by_evaluation, ctx, rep, "M22", guards=True)
     rep.run(RF.rule_locals_defined, ctx, rep, "U1", packages=("gtwrap/matlab_wrapper",), min_functions=3)
